@@ -50,11 +50,15 @@ Unload(h, id) == [k |-> h[id].keys, c |-> UnloadKids(h, h[id].kids)]
 UnloadKids(h, kids) == IF kids = <<>> THEN <<>> ELSE <<Unload(h, Head(kids))>> \o UnloadKids(h, Tail(kids))
 FromHeap(st) == IF st.root = 0 THEN Empty ELSE Unload(st.h, st.root)
 
-\* the children of node id get parent = id and position = their index (the code updates exactly the moved ones)
-Reparent(h, id) == [j \in 1..Len(h) |->
-                      IF \E i \in 1..Len(h[id].kids) : h[id].kids[i] = j
-                      THEN [h[j] EXCEPT !.parent = id, !.pos = (CHOOSE i \in 1..Len(h[id].kids) : h[id].kids[i] = j) - 1]
-                      ELSE h[j]]
+\* the children of node id get parent = id and position = their index (the code updates exactly the moved ones).
+\* SubSeq(.., 1, Len) only makes TLC build the sequence now instead of stacking lazy function layers.
+Reparent(h, id) ==
+    LET kids == h[id].kids
+        f == [j \in 1..Len(h) |->
+                IF \E i \in 1..Len(kids) : kids[i] = j
+                THEN [h[j] EXCEPT !.parent = id, !.pos = (CHOOSE i \in 1..Len(kids) : kids[i] = j) - 1]
+                ELSE h[j]]
+    IN SubSeq(f, 1, Len(h))
 InsAt(s, i, x) == SubSeq(s, 1, i) \o <<x>> \o SubSeq(s, i + 1, Len(s))          \* insert at 0-based index i
 DelAt(s, i) == SubSeq(s, 1, i) \o SubSeq(s, i + 2, Len(s))                       \* delete 0-based index i
 LowerIdx(keys, k) == Cardinality({i \in 1..Len(keys) : keys[i] < k})              \* search.lower_bound - a
